@@ -193,14 +193,14 @@ Proof. intros. unfold des_round_leak. autorewrite with leak. apply des_f_leak_sn
 
 Lemma des_rounds_leak_fst : forall ks lr, fst (des_rounds_leak ks lr) = des_rounds ks lr.
 Proof.
-  unfold des_rounds. induction ks as [|k t IH]; intros lr; simpl.
+  unfold des_rounds. induction ks as [|k t IH]; intros lr; cbn [des_rounds_leak fold_left].
   - reflexivity.
   - rewrite ?fst_bind, IH, des_round_leak_fst. reflexivity.
 Qed.
 Lemma des_rounds_leak_snd : forall ks lr,
   snd (des_rounds_leak ks lr) = concat (repeat des_S_trace (length ks)).
 Proof.
-  induction ks as [|k t IH]; intros lr; simpl.
+  induction ks as [|k t IH]; intros lr; cbn [des_rounds_leak length repeat concat].
   - reflexivity.
   - rewrite ?snd_bind, IH, des_round_leak_snd. reflexivity.
 Qed.
@@ -235,7 +235,7 @@ Qed.
 Lemma cbc64_enc_leak_fst : forall E cfb cs iv n,
   fst (cbc64_enc_leak E cfb iv n cs) = cbc64_enc (fun x => fst (E x)) cfb iv cs.
 Proof.
-  induction cs as [|c t IH]; intros iv n; simpl.
+  induction cs as [|c t IH]; intros iv n; cbn [cbc64_enc_leak cbc64_dec_leak cbc64_enc cbc64_dec cbc64_trace map].
   - reflexivity.
   - destruct (Nat.eqb (length c) 8).
     + rewrite ?fst_bind, ?fst_ret, IH. reflexivity.
@@ -246,7 +246,7 @@ Lemma cbc64_enc_leak_snd : forall E tE cfb cs iv n, oblivious E tE ->
   snd (cbc64_enc_leak E cfb iv n cs) = cbc64_trace tE tE cfb n (map (@length N) cs).
 Proof.
   intros E tE cfb cs iv n HE. revert iv n.
-  induction cs as [|c t IH]; intros iv n; simpl.
+  induction cs as [|c t IH]; intros iv n; cbn [cbc64_enc_leak cbc64_dec_leak cbc64_enc cbc64_dec cbc64_trace map].
   - destruct cfb; reflexivity.
   - destruct (Nat.eqb (length c) 8).
     + autorewrite with leak. rewrite HE, IH. simpl. rewrite <- app_assoc. reflexivity.
@@ -258,7 +258,7 @@ Lemma cbc64_dec_leak_fst : forall E D cfb cs iv n,
   fst (cbc64_dec_leak E D cfb iv n cs) =
   cbc64_dec (fun x => fst (E x)) (fun x => fst (D x)) cfb iv cs.
 Proof.
-  induction cs as [|c t IH]; intros iv n; simpl.
+  induction cs as [|c t IH]; intros iv n; cbn [cbc64_enc_leak cbc64_dec_leak cbc64_enc cbc64_dec cbc64_trace map].
   - reflexivity.
   - destruct (Nat.eqb (length c) 8).
     + rewrite ?fst_bind, ?fst_ret, IH. reflexivity.
@@ -269,7 +269,7 @@ Lemma cbc64_dec_leak_snd : forall E D tE tD cfb cs iv n, oblivious E tE -> obliv
   snd (cbc64_dec_leak E D cfb iv n cs) = cbc64_trace tE tD cfb n (map (@length N) cs).
 Proof.
   intros E D tE tD cfb cs iv n HE HD. revert iv n.
-  induction cs as [|c t IH]; intros iv n; simpl.
+  induction cs as [|c t IH]; intros iv n; cbn [cbc64_enc_leak cbc64_dec_leak cbc64_enc cbc64_dec cbc64_trace map].
   - destruct cfb; reflexivity.
   - destruct (Nat.eqb (length c) 8).
     + autorewrite with leak. rewrite HD, IH. simpl. rewrite <- app_assoc. reflexivity.
@@ -321,7 +321,7 @@ Proof. intros. unfold des3_D_leak. rewrite ?fst_bind, !des_block_leak_fst. refle
 Lemma cbc64_enc_ext : forall E E' cfb cs iv, (forall x, E x = E' x) ->
   cbc64_enc E cfb iv cs = cbc64_enc E' cfb iv cs.
 Proof.
-  intros E E' cfb cs iv H. revert iv. induction cs as [|c t IH]; intros iv; simpl; [reflexivity|].
+  intros E E' cfb cs iv H. revert iv. induction cs as [|c t IH]; intros iv; cbn [cbc64_enc cbc64_dec]; [reflexivity|].
   destruct (Nat.eqb (length c) 8).
   - rewrite H, IH. reflexivity.
   - unfold cfb64_residue. rewrite H. reflexivity.
@@ -330,7 +330,7 @@ Lemma cbc64_dec_ext : forall E E' D D' cfb cs iv, (forall x, E x = E' x) -> (for
   cbc64_dec E D cfb iv cs = cbc64_dec E' D' cfb iv cs.
 Proof.
   intros E E' D D' cfb cs iv HE HD. revert iv.
-  induction cs as [|c t IH]; intros iv; simpl; [reflexivity|].
+  induction cs as [|c t IH]; intros iv; cbn [cbc64_enc cbc64_dec]; [reflexivity|].
   destruct (Nat.eqb (length c) 8).
   - rewrite HD, IH. reflexivity.
   - unfold cfb64_residue. rewrite HE. reflexivity.
